@@ -49,9 +49,10 @@ type cfConst struct {
 }
 
 type cfPkg struct {
-	Path string `json:"path"`
-	Main bool   `json:"main"`
-	OK   bool   `json:"ok"`
+	Path   string   `json:"path"`
+	Main   bool     `json:"main"`
+	OK     bool     `json:"ok"`
+	Errors []string `json:"errors"`
 }
 
 type cfTarget struct {
@@ -130,6 +131,12 @@ func constsStream(r *runner, rng *rand.Rand) error {
 }
 
 func (r *runner) constCase(kind, target, name, got, want string) {
+	r.constCaseF(kind, target, name, got, want, "")
+}
+
+// constCaseF is constCase with a failing input for the property itself (when the difference is
+// not merely translator-vs-compiler but the real code contradicting the property).
+func (r *runner) constCaseF(kind, target, name, got, want, failing string) {
 	req := fmt.Sprintf("K %s %s %s", kind, target, name)
 	// a zero (false, empty) value is what an absent or uninitialised constant would also show: counted as trivial
 	r.count(req, !(want == "0" || want == "" || want == "false" || want == "<missing>"))
@@ -139,7 +146,7 @@ func (r *runner) constCase(kind, target, name, got, want string) {
 	}
 	if got != want {
 		r.mismatch(Mismatch{Case: kind + ":" + name, Request: req, Go: got, Model: want,
-			Note: "the translator's row for " + target + " differs from the compiled package", Key: "consts:" + kind + ":" + target + ":" + name})
+			Note: "the translator's row for " + target + " differs from the compiled package", Key: "consts:" + kind + ":" + target + ":" + name, FailingInput: failing})
 	}
 }
 
@@ -307,7 +314,12 @@ func constsCompare(r *runner, f *cfFacts) {
 			}
 			continue
 		}
-		r.constCase("getinfo", "*/"+t.GOARCH, "GetInfo("+t.GOARCH+")", got, want)
+		failing := ""
+		if want == "error" && got != "error" {
+			failing = fmt.Sprintf("GOARCH %s (targets */%s): arch.GetInfo(%q) — what GetInfo(\"\") evaluates there — returns %s although arch.%s has no syscall table; "+
+				"expected an `unsupported arch` error", t.GOARCH, t.GOARCH, t.GOARCH, got, t.GoarchRow.Var)
+		}
+		r.constCaseF("getinfo", "*/"+t.GOARCH, "GetInfo("+t.GOARCH+")", got, want, failing)
 	}
 	// GetInfo("") on this host is the row of runtime.GOARCH
 	_, err = arch.GetInfo("")
@@ -344,6 +356,7 @@ func constsBuildAll(r *runner, f *cfFacts) {
 	results := make([]result, 0, 2*len(f.Targets))
 	var mu sync.Mutex
 	var wg sync.WaitGroup
+	skipped := []string{}
 	sem := make(chan struct{}, 3)
 	start := time.Now()
 	for i := range f.Targets {
@@ -356,9 +369,18 @@ func constsBuildAll(r *runner, f *cfFacts) {
 			// what the translator says builds: everything, or (toolchain refuses to link commands
 			// without cgo on android/ios) the library packages
 			pkgs := []string{"./..."}
+			steps := []string{"build", "vet"}
 			if !t.Builds {
 				pkgs = nil
 				for _, p := range t.Pkgs {
+					for _, e := range p.Errors {
+						if p.Main && strings.Contains(e, "requires external (cgo) linking") {
+							// android/386, android/amd64, android/arm, ios/*: the toolchain links nothing without
+							// cgo; `go vet` also loads the generated test main packages and stops with the same
+							// message, so only `go build` of the library packages is meaningful there
+							steps = []string{"build"}
+						}
+					}
 					if p.OK && !p.Main {
 						if p.Path == "." {
 							pkgs = append(pkgs, ".")
@@ -370,7 +392,12 @@ func constsBuildAll(r *runner, f *cfFacts) {
 			}
 			env := append(os.Environ(), "GOOS="+t.GOOS, "GOARCH="+t.GOARCH, "CGO_ENABLED=0", "GOFLAGS=-mod=readonly",
 				"GOPROXY=off", "GOSUMDB=off", "GOTOOLCHAIN=local", "GOCACHE="+cache)
-			for _, step := range []string{"build", "vet"} {
+			if len(steps) == 1 {
+				mu.Lock()
+				skipped = append(skipped, t.GOOS+"/"+t.GOARCH)
+				mu.Unlock()
+			}
+			for _, step := range steps {
 				t0 := time.Now()
 				cmd := exec.Command("go", append([]string{step}, pkgs...)...)
 				cmd.Dir = repo
@@ -411,5 +438,7 @@ func constsBuildAll(r *runner, f *cfFacts) {
 	}
 	r.sum.Extra["targets_built_and_vetted"] = len(f.Targets)
 	r.sum.Extra["go_build_vet_failures"] = failed
+	sort.Strings(skipped)
+	r.sum.Extra["go_vet_skipped_cgo_link_restriction"] = skipped
 	r.sum.Extra["go_build_vet_wall_s"] = time.Since(start).Seconds()
 }
